@@ -107,6 +107,14 @@ def monitor(ck, tier, seed, replay=None):
                 continue
             out = o['outcome']
             ck.count('mir:configs_run')
+            if why == 'div-trap' and not unopt.get('overflowed'):
+                # the trap itself is implementation-defined (an optimisation may remove it), but what was printed before it
+                # must still be printed first: the unoptimised lines are a prefix of the optimised ones
+                if out['lines'][:len(unopt['lines'])] != unopt['lines']:
+                    ck.property_failure('optimized MIR (config %s) loses or changes output printed before a division trap' % cname,
+                                        dict(inp, config=cfg), expected={'lines': unopt['lines'][:40], 'ending': unopt['ending']},
+                                        observed={'lines': out['lines'][:40], 'ending': out['ending']}, how='./check C02 --replay <this file>')
+                continue
             if why:
                 continue
             if out['ending']['kind'] in EXCLUDED_ENDINGS and unopt['ending']['kind'] not in EXCLUDED_ENDINGS and out['ending']['kind'] == 'stack-overflow':
